@@ -182,10 +182,13 @@ structure GFinalOK (source : List CRow) (dk : List Nat) (dims : Nat) (L D0 : Int
 
 /-- after the conversion loop the matrix of products is `L` times the identity; `L = D0 · source[last][0]` with
     `D0 = dest[0][0]` -/
-theorem cgLoop_final (n : Nat) (source : List CRow) (dk : List Nat) (hs : CSrcOK (n + 1) source dk)
+theorem cgLoop_diagFinal (n : Nat) (source : List CRow) (dk : List Nat) (hs : CSrcOK (n + 1) source dk)
     (hk : ∀ d, d < n + 1 → kind dk d ≤ 2) (h0 : kind dk 0 = PROPER_CONGRUENCE) :
     ∃ L D0 : Int, 0 < D0 ∧ D0 * cEnt source (pos dk (n + 1) 0) 0 = L ∧
-      GFinalOK source dk (n + 1) L D0 (cgLoop n source dk).dest := by
+      GFinalOK source dk (n + 1) L D0 (cgLoop n source dk).dest ∧ 0 < L ∧
+      ∀ q, q < n + 1 → nvB dk q = true → ∀ p, p < n + 1 → nlB dk p = true →
+        dotUpto (rowAt (cgLoop n source dk).dest (nv dk q)).e (rowAt source (pos dk (n + 1) p)).e (n + 1) =
+          if p = q then L else 0 := by
   obtain ⟨_, _, hlen, L, hL, hrows⟩ := cgLoop_inv n source dk hs hk
   have hl0 : nlB dk 0 = true := by simp [nlB, h0, PROPER_CONGRUENCE, LINE]
   have hv0 : nvB dk 0 = true := by simp [nvB, h0, PROPER_CONGRUENCE, GEN_VIRTUAL]
@@ -207,7 +210,7 @@ theorem cgLoop_final (n : Nat) (source : List CRow) (dk : List Nat) (hs : CSrcOK
     · rw [if_neg hpq] at this ⊢
       linear_combination this
   have R0 := hrows 0 (by omega) hv0
-  refine ⟨L, get (rowAt (cgLoop n source dk).dest (nv dk 0)).e 0, R0.diag, ?_, hlen, fun q hq hql => ?_⟩
+  refine ⟨L, get (rowAt (cgLoop n source dk).dest (nv dk 0)).e 0, R0.diag, ?_, ⟨hlen, fun q hq hql => ?_⟩, hL, hprods⟩
   · have hp := hprods 0 (by omega) hv0 0 (by omega) hl0
     rw [if_pos rfl] at hp
     rw [← hp, cg_dotUpto_comm]
@@ -238,5 +241,12 @@ theorem cgLoop_final (n : Nat) (source : List CRow) (dk : List Nat) (hs : CSrcOK
     · by_cases hpq : p = q
       · rw [if_pos hpq]
       · rw [if_neg hpq]; exact Int.dvd_zero _
+
+theorem cgLoop_final (n : Nat) (source : List CRow) (dk : List Nat) (hs : CSrcOK (n + 1) source dk)
+    (hk : ∀ d, d < n + 1 → kind dk d ≤ 2) (h0 : kind dk 0 = PROPER_CONGRUENCE) :
+    ∃ L D0 : Int, 0 < D0 ∧ D0 * cEnt source (pos dk (n + 1) 0) 0 = L ∧
+      GFinalOK source dk (n + 1) L D0 (cgLoop n source dk).dest := by
+  obtain ⟨L, D0, h1, h2, h3, _⟩ := cgLoop_diagFinal n source dk hs hk h0
+  exact ⟨L, D0, h1, h2, h3⟩
 
 end PPLV.Lattice.Red
